@@ -556,7 +556,10 @@ def glue_contextlib() -> None:
         # each callback takes parameters following the signature of a __exit__ method
         callbacks: List[Tuple[bool, Callable[..., Any]]] = list(stack._exit_callbacks)
 
-        for idx, (is_sync, callback) in enumerate(callbacks):
+        def classify(
+            is_sync: bool, callback: Any
+        ) -> Tuple[object, str, str, Optional[Callable[[], str]]]:
+            # What was registered, and how: (manager, tag, method, describe_arg)
             tag = ""
             manager: object = None
             method: str
@@ -633,6 +636,19 @@ def glue_contextlib() -> None:
                 # stack.push(exit_ish_function)
                 method = "push" if is_sync else "push_async_exit"
                 describe_arg = functools.partial(format_funcname, callback)
+            return manager, tag, method, describe_arg
+
+        for idx, (is_sync, callback) in enumerate(callbacks):
+            manager: object
+            describe_arg: Optional[Callable[[], str]]
+            try:
+                manager, tag, method, describe_arg = classify(is_sync, callback)
+            except Exception as ex:
+                # (an object that objects to the questions we ask: it is
+                # a registration all the same)
+                errors.append(ex)
+                manager, tag, describe_arg = None, "", None
+                method = "push" if is_sync else "push_async_exit"
 
             child_context = Context(
                 obj=manager if manager is not None else callback,
